@@ -18,6 +18,12 @@ GO_ACTS = [
     lambda k: '{ x := `raw $ string`; _ = x; $$ = 5 }',
     lambda k: '{ $$ = %s }' % (' + '.join('$%d' % (j + 1) for j in range(k)) if k else '0'),
     lambda k: '{\n\t\t$$ = 0\n\t\tfor i := 0; i < 3; i++ {\n\t\t\t$$ += i\n\t\t}\n\t}',
+    # quote characters that are not part of a literal (an apostrophe in a comment, a lone backquote or double quote): only braces
+    # delimit an action, and two such actions in one file must not pair up
+    lambda k: "{ // we don't re-check them\n $$ = 4 }",
+    lambda k: "{ /* can't overflow */ $$ = 5 }",
+    lambda k: '{ /* say "hi */ $$ = 6 }',
+    lambda k: '{ // a ` backquote\n $$ = 8 }',
 ]
 TS_ACTS = [
     lambda k: '{ $$ = %s }' % ('$1' if k >= 1 else '7'),
@@ -29,6 +35,9 @@ TS_ACTS = [
     lambda k: '{ let s = "a\\"b%"; $$ = s.length }',
     lambda k: "{ let r = '%'; $$ = r.length }",
     lambda k: '{ $$ = %s }' % (' + '.join('$%d' % (j + 1) for j in range(k)) if k else '0'),
+    lambda k: "{ // we don't re-check them\n $$ = 4 }",
+    lambda k: "{ /* can't overflow */ $$ = 5 }",
+    lambda k: '{ /* say "hi */ $$ = 6 }',
 ]
 C16_LITS = "+-*/=<>()[],.!&^#@~?|{}\"%$:;'`_ 0aZ"
 GO_EPI = '\nfunc GetToken(input string, valTy *ValType, pos *int) int { return -1 }\n'
@@ -286,6 +295,20 @@ def run_C17(ctx):
     import props
     out = props.i6_shared(ctx)
     ntr = 0
+    # the names the trace prints are the names written in the grammar (a literal 'c' is printed as 'c'): checked against the file,
+    # not against the generator's own symbol table
+    for gname, g in sorted(out['grammars'].items()):
+        d = out['dumps'].get(gname)
+        if not d or not d.get('ok'):
+            continue
+        have = set(s['name'] for s in d['symbols'])
+        want = [gram.internal_name(g, ('t', i)) for i in range(len(g['terms']))] + [gram.internal_name(g, ('n', j)) for j in range(len(g['nonterms']))]
+        missing = [n for n in want if n not in have]
+        ctx.evaluations += 1
+        if missing:
+            extra = sorted(have - set(want) - {'start', '$'})
+            ctx.violation('counterexample', 'grammar %s: the symbols the trace names include %s, the grammar calls them %s' % (gname, extra[:4], missing[:4]),
+                          props.case_of(out, gname, observed=sorted(have), expected=want), interface='I6')
     for (gname, vn, payload), lines in sorted(out['trace'].items()):
         d = out['dumps'].get(gname)
         if not d or not d.get('ok'):
